@@ -306,6 +306,15 @@ def oracle_loader(ck, rng):
             ok = exc <= 2e-4 * max(1.0, scale)
             detail = f"molecule-frame displacement exceeds max_shifts by {exc:.5f} nm" if not ok else ""
             # multi-template entry and group entry with scalar limit
+            # anisotropic range together with a rotation search: the bound holds per component in the *input* molecule's own axes
+            lim3 = tuple(float(x) * scale for x in rng.choice([0.0, 0.5, 1.0, 2.0], size=3))
+            if i % 2 == 0:
+                outr = ld.align(tmpl, max_shifts=lim3, rotations=((30, 30), (30, 30), (30, 30)), alignment_model=models()[model])
+                dr = outr.molecules.pos - mol.pos
+                locr = np.stack([mol.rotator[k].inv().apply(dr[k]) for k in range(4)])
+                excr = (np.abs(locr) - np.array(lim3)[None]).max()
+                if excr > 2e-4 * max(1.0, scale):
+                    ok, detail = False, f"align with rotations, max_shifts={lim3}: molecule-frame displacement exceeds its component limit by {excr:.5f} nm"
             # every entry point is bounded alike: multi-template (direct, and through align with a list / 4-D stack), batch, group
             from acryo import BatchLoader
             t2 = [tmpl, tmpl[::-1].copy()]
